@@ -126,7 +126,7 @@ _DECL = re.compile(r"<![A-Za-z]")
 _FENCE_TAB = re.compile(r"(?m)^[ >\t]*(?:`{3,}|~{3,})[^\n]*\t[ \t]*$")
 _TYPE1_TAG = re.compile(r"(?im)^[ >\t\-+*0-9.)]*</?(?:script|style|pre|textarea)[^\s>a-z]")
 _QUOTE_DEEP = re.compile(r"(?:^|>)(?: {4,}| *\t[ \t]*)>")
-_LRD = re.compile(r"(?m)^[ \t>\-+*0-9.)]*\[[^\]\n]*\]:")
+_LRD = re.compile(r"(?m)^[ \t>\-+*0-9.)]*\[(?:[^\]\n\\]|\\.)*(?:\n[ \t>]*(?:[^\]\n\\]|\\.)*)?\]:")
 _QUOTE_LINE = re.compile(r"^[ \t]{0,3}(?:(?:[-+*]|\d{1,9}[.)])[ \t]+)*>")
 
 
